@@ -291,6 +291,24 @@ class LawWorld(World):
             if not refs.maxabs(C - Cx) <= 1e-9 * scale:
                 raise Violation("law-not-the-rotated-tensor", f"{what}: C differs from the entered matrix rotated by Q = [e1 e2 e1 x e2] as a fourth-order tensor: max|diff| {refs.maxabs(C - Cx):.3e} (scale {scale:.3e})")
             ctx.checked()
+        names = axk or (("axis1", "axis2") if self.kind == "Anisotropic" else None)
+        if names and np.ndim(C) == 2:
+            # "with material axes of any length ... the change-of-basis matrices being orthogonal": the public helper
+            # Models.Get_Pmat with the axes as the history entered them (not normalised), on visited axis pairs only
+            a1 = np.asarray(self.p[names[0]], dtype=float)
+            a2 = np.asarray(self.p[names[1]], dtype=float)
+            d = 3 if (a1[2] != 0 or a2[2] != 0 or self.cfg["dim"] == 3) else 2
+            try:
+                with ctx.sut():
+                    from EasyFEA.Models import Get_Pmat
+
+                    P = np.asarray(Get_Pmat(a1[:d], a2[:d]))
+            except SutError as e:
+                raise Violation("change-of-basis-raises", f"{what}: Get_Pmat({a1[:d].tolist()}, {a2[:d].tolist()}) raised {e}", e.site)
+            if not refs.maxabs(P @ P.T - np.eye(P.shape[0])) <= 1e-12:
+                raise Violation("change-of-basis-not-orthogonal", f"{what}: Get_Pmat({a1[:d].tolist()}, {a2[:d].tolist()}) is not orthogonal: max|P P^T - I| = {refs.maxabs(P @ P.T - np.eye(P.shape[0])):.3e} (axes of length {np.linalg.norm(a1[:d]):.3g}, {np.linalg.norm(a2[:d]):.3g})")
+            ctx.checked()
+            ctx.probe("change_of_basis_checked")
         return C, S
 
     def _check_observers(self, which, what):
